@@ -99,6 +99,8 @@ class Interp:
         if isinstance(v, VAny):
             f = z3.Function('truthy', Val, z3.BoolSort())
             return f(v.t)
+        if isinstance(v, VPat):
+            return z3.Or(z3.Not(v.is_text()), S._b(self.truth(v.payload)))
         raise Unsupported('truthiness of %r' % (v,))
 
     def decide_truth(self, v, tag=''):
@@ -127,6 +129,9 @@ class Interp:
         return isinstance(v, (VInt, VReal, VBool)) or (isinstance(v, VOpt) and self.is_num(v.inner))
 
     def unopt(self, v, what='value'):
+        if isinstance(v, VPat):
+            self.ctx.safe(v.is_text(), 'pattern-element-is-not-a-marker.' + what)
+            return v.payload
         if isinstance(v, VOpt):
             self.ctx.safe(z3.Not(v.isnone), 'not-none.' + what)
             return v.inner
@@ -153,6 +158,13 @@ class Interp:
 
     def veq(self, a, b):
         """Python == ; returns z3 Bool or python bool."""
+        if isinstance(a, VPat) or isinstance(b, VPat):
+            p_, x = (a, b) if isinstance(a, VPat) else (b, a)
+            if isinstance(x, (VClass, VNone)):
+                return self.vis(a, b)
+            if isinstance(x, VPat):
+                raise Unsupported('== between pattern elements')
+            return z3.And(p_.is_text(), S._b(self.veq(p_.payload, x)))
         if isinstance(a, VOpt) or isinstance(b, VOpt):
             if isinstance(a, VOpt) and isinstance(b, VOpt):
                 inner = self.veq(a.inner, b.inner)
@@ -211,6 +223,17 @@ class Interp:
 
     def vis(self, a, b):
         """Python `is`."""
+        if isinstance(a, VPat) or isinstance(b, VPat):
+            p_, x = (a, b) if isinstance(a, VPat) else (b, a)
+            if isinstance(x, VClass):
+                if x.name == 'EOF':
+                    return p_.iseof
+                if x.name == 'TIMEOUT':
+                    return z3.And(z3.Not(p_.iseof), p_.isto)
+                return False
+            if isinstance(x, VNone):
+                return False
+            raise Unsupported('is between a pattern element and %r' % (x,))
         if isinstance(a, VOpt) or isinstance(b, VOpt):
             o, x = (a, b) if isinstance(a, VOpt) else (b, a)
             if isinstance(x, VNone):
@@ -1012,7 +1035,7 @@ class Interp:
         post.interp = self
         con.effects(post)
         for cid, f in con.ensures(post):
-            ctx.assume(S._b(f) if not isinstance(f, bool) else f)
+            ctx.assume_spec(f)
         if not ctx.feasible():
             raise Infeasible()
         ctx.path_tags.append(('outcome:' + what, out.label))
@@ -1160,10 +1183,23 @@ class Interp:
             self.prog.pruned.append('%s:%d' % (fr.fi.path if fr.fi else '?', node.lineno))
             self.exec_block(node.body if pr else node.orelse, fr)
             return
-        if self.decide_truth(self.eval(node.test, fr), 'if@%d' % node.lineno):
+        taken = self.decide_truth(self.eval(node.test, fr), 'if@%d' % node.lineno)
+        self.narrow(node.test, taken, fr)
+        if taken:
             self.exec_block(node.body, fr)
         else:
             self.exec_block(node.orelse, fr)
+
+    def narrow(self, test, taken, fr):
+        """`x is None` / `x is not None` decided on this path: give the local its narrowed value."""
+        if isinstance(test, ast.Compare) and len(test.ops) == 1 and isinstance(test.left, ast.Name) \
+                and isinstance(test.comparators[0], ast.Constant) and test.comparators[0].value is None \
+                and isinstance(test.ops[0], (ast.Is, ast.IsNot)):
+            name = test.left.id
+            v = fr.locals.get(name)
+            if isinstance(v, VOpt):
+                is_none = taken if isinstance(test.ops[0], ast.Is) else (not taken)
+                fr.locals[name] = VNone() if is_none else v.inner
 
     def s_Assert(self, node, fr):
         t = self.truth(self.eval(node.test, fr))
@@ -1329,10 +1365,12 @@ class Interp:
         for gname, ty in gh.items():
             ctx.ghost[gname] = to_spec(ctx, ctx.heap, ctx.fresh(ty, '%s.g.%s' % (lid, gname)))
         sv2 = StateView(ctx, fr)
+        sv2.l = LocalsView(ctx, ctx.snapshot(), dict(fr.locals))
+        sv2.g = dict(ctx.ghost)
         sv2.entry = sv.entry
         sv2.iter = iterable
         for cid, f in spec.invariant(sv2):
-            ctx.assume(S._b(f))
+            ctx.assume_spec(f)
         if kind == 'for':
             i = fr.locals[ghost_i].t
             lo, hi = self.iter_bounds(iterable)
@@ -1354,6 +1392,10 @@ class Interp:
                 return      # continues after the loop with the state at the break
             if kind == 'for':
                 fr.locals[ghost_i] = VInt(z3.simplify(fr.locals[ghost_i].t + 1))
+            if hasattr(spec, 'ghost_step'):
+                sv_end = StateView(ctx, fr)
+                sv_end.entry = sv.entry
+                spec.ghost_step(sv2, sv_end)
             sv3 = StateView(ctx, fr)
             sv3.entry = sv.entry
             sv3.iter = iterable
